@@ -52,6 +52,7 @@ class MtlRun:
             reps = 2 if (aggregator is None and retain and rng.random() < 0.3) else 1
         self.reps = reps
         self.positional = rng.random() < 0.25
+        self.rely_on_defaults = rng.random() < 0.5
         self.exc = None
         try:
             for r in range(reps):
@@ -61,8 +62,10 @@ class MtlRun:
                 if self.positional:      # documented order: (losses, features, aggregator, tasks_params, shared_params, retain_graph, parallel_chunk_size)
                     mtl_backward([B.node(l) for l in self.losses], feats_arg, self.agg, tpa, sha, rt, None if k == 0 else k)
                 else:
-                    mtl_backward([B.node(l) for l in self.losses], feats_arg, self.agg, tasks_params=tpa, shared_params=sha,
-                                 retain_graph=rt, parallel_chunk_size=None if k == 0 else k)
+                    opt = {} if (self.rely_on_defaults and not rt) else {"retain_graph": rt}
+                    if not (self.rely_on_defaults and k == 0):
+                        opt["parallel_chunk_size"] = None if k == 0 else k
+                    mtl_backward([B.node(l) for l in self.losses], feats_arg, self.agg, tasks_params=tpa, shared_params=sha, **opt)
         except Exception as e:                              # noqa: BLE001
             self.exc = e
         self.after_vals = B.flat_vals()
